@@ -3,6 +3,8 @@
 // ===================================================================================
 // R6: a formatted string whose text no proof may depend on
 #[verifier::external_body] pub fn vx_opaque_string() -> (r: String) { String::new() }
+// R6 for a template that has a literal character outside its placeholders: the text is still abstracted, but it is not empty
+#[verifier::external_body] pub fn vx_opaque_nonempty_string() -> (r: String) ensures r@.len() > 0 { String::from("_") }
 // ============================ end of std stubs ============================
 // R21: next value of an auxiliary-name counter (the value is abstracted: names are opaque strings, R6)
 #[verifier::external_body] pub fn vx_counter_next(c: u32) -> (r: u32) { c.wrapping_add(1) }
@@ -10,3 +12,5 @@
 #[verifier::external_body] pub fn vx_arm_not_in_slice() -> ! { unimplemented!() }
 // R7: `vec![e; n]` — n copies of e
 #[verifier::external_body] pub fn vx_vec_repeat<T: Clone>(e: T, n: usize) -> (r: Vec<T>) ensures r@.len() == n, forall|i: int| 0 <= i < n ==> #[trigger] r@[i] == e { vec![e; n] }
+// R32: next value of a local counter whose machine overflow is not checked
+#[verifier::external_body] pub fn vx_usize_next(c: usize) -> (r: usize) { c.wrapping_add(1) }
